@@ -1,9 +1,12 @@
 #!/bin/bash
-# tools/run_all.sh [quick|thorough]: runs every registered check sequentially on the current /repo tree and prints one line each.
+# tools/run_all.sh [quick|thorough] [Cxx ...]: runs every registered check (or the named ones) sequentially on the current /repo tree and prints one line each.
 tier=${1:-quick}
+shift
+only="$*"
 cd /verif || exit 2
 rc=0
 for id in $(python3 -c "import json; print(' '.join(c['property_id'] for c in json.load(open('MANIFEST.json'))['checks']))"); do
+  if [ -n "$only" ] && ! echo " $only " | grep -q " $id "; then continue; fi
   s=$(date +%s)
   out=$(./run.sh $id $tier 2>&1); e=$?
   echo "$id exit=$e $(($(date +%s)-s))s $(echo "$out" | grep -c '^VIOLATION') violation-lines; $(echo "$out" | tail -1 | cut -c1-150)"
